@@ -9,7 +9,7 @@ import mpi_common
 
 def run(tier, seed):
     chk = vlib.Check("C06", tier, seed)
-    n = 90 if tier == "quick" else 1500
+    n = 90 if tier == "quick" else 900
     cases = sim_common.make_cases("C06", tier, seed, n, variants=(0,), fp_levels=(3, 10, 2, 3, 10), sizes=(0, 0, 1), burst=5,
                                   threads=[4, 8, 2, 12, 3, 16, 6], gvts=[1000, 0, 100000, 300, 20])
     sim_common.run_sim_cases(chk, cases, timeout=300)
